@@ -25,6 +25,7 @@ EXPLANATION = (
     "multiplication by the factor agree; equal units short-circuit to the identity. Also decided: every text entry path of the definition parser (file, string, define) uses the registry's ParserConfig(non_int_type) and parse_file/parse_string are siblings; int/float/complex of a dimensionless quantity use the magnitude converted to no units. Does not decide the value of any "
     "factor, float accuracy or path independence.")
 EXPLANATION += ' Also decided (round 5): the conversion factor enters Decimal / Fraction magnitudes only through its decimal text (Decimal(str(factor)), never Decimal(factor)); the root-unit recursion accumulates under the visited key.'
+EXPLANATION += ' Also decided (round 10, shared with C08/C13): the cached reading of a unit spelling (parse_unit memo) is dropped whenever that spelling is registered as a name, symbol or alias - a unit given by name converts by its cached reading, so a stale reading is a wrong factor.'
 
 FACTOR_PATH = [(PR, "GenericPlainRegistry._get_root_units"), (PR, "GenericPlainRegistry._get_root_units_recurse"),
                (PR, "GenericPlainRegistry._get_conversion_factor"), (PR, "GenericPlainRegistry._convert"),
@@ -37,6 +38,7 @@ def run(ck, ix, tier):
     memo.rule_root_units_memo(ck, ix)
     memo.rule_conversion_factor_memo(ck, ix)
     memo.rule_disk_cache_hit(ck, ix)
+    memo.rule_parse_unit_memo(ck, ix)  # a unit given by name converts by its cached reading: stale reading = wrong factor (round 10)
     recursion_exponent_rule(ck, ix, "GenericPlainRegistry._get_root_units_recurse")
 
     # root expansion: names are canonicalised per key inside the loop (never merged beforehand), base units accumulate
